@@ -25,6 +25,15 @@ type evalCase struct {
 	Text   string            `json:"text"`
 	NS     map[string]string `json:"ns,omitempty"`
 	Vars   []varBinding      `json:"vars,omitempty"`
+	Funcs  []funcBinding     `json:"funcs,omitempty"`
+}
+
+// funcBinding is a user function registered with the query: it ignores its
+// arguments and returns a constant node-set (in document order).
+type funcBinding struct {
+	Space string   `json:"ns,omitempty"`
+	Local string   `json:"n"`
+	Nodes []string `json:"nodes"`
 }
 
 type varBinding struct {
@@ -146,6 +155,28 @@ func (c *evalCase) settings(p *prepared) ([]xsel.ContextApply, *xref.Env, error)
 			env.Vars[name] = xref.NodeSet(xref.Sort(ms))
 			set = append(set, xsel.WithVariableNS(b.Space, b.Local, ns))
 		}
+	}
+	for _, f := range c.Funcs {
+		var ms []*xmodel.Node
+		ns := xsel.NodeSet{}
+		for _, r := range f.Nodes {
+			m := p.doc.Resolve(r)
+			if m == nil {
+				return nil, nil, fmt.Errorf("function %s: node %s not in document", f.Local, r)
+			}
+			ms = append(ms, m)
+		}
+		ms = xref.Sort(ms)
+		for _, m := range ms {
+			ns = append(ns, p.loc.ToCur[m])
+		}
+		val := xref.NodeSet(ms)
+		env.Funcs[xref.Name{Space: f.Space, Local: f.Local}] = func(xref.Ctx, []xref.Value) (xref.Value, error) { return val, nil }
+		set = append(set, xsel.WithFunctionNS(f.Space, f.Local, func(xsel.Context, ...xsel.Result) (xsel.Result, error) {
+			out := make(xsel.NodeSet, len(ns))
+			copy(out, ns)
+			return out, nil
+		}))
 	}
 	return set, env, nil
 }
@@ -278,6 +309,27 @@ func compareResult(impl xsel.Result, ref xref.Value, loc *xmodel.Loc, ascending,
 	return nil
 }
 
+// resultMethods checks the conversions the returned Result offers to the
+// caller (String/Number/Bool) against the XPath 1.0 conversions of the value.
+func resultMethods(impl xsel.Result, ref xref.Value) (err error) {
+	defer func() {
+		if r := recover(); r != nil {
+			err = fmt.Errorf("a conversion method of the result panicked: %v", r)
+		}
+	}()
+	if got, want := impl.String(), ref.ToString(); got != want {
+		return fmt.Errorf("Result.String() = %q, string() of the value is %q", got, want)
+	}
+	got, want := impl.Number(), ref.ToNumber()
+	if !(got == want || math.IsNaN(got) && math.IsNaN(want)) {
+		return fmt.Errorf("Result.Number() = %v, number() of the value is %v", got, want)
+	}
+	if got, want := impl.Bool(), ref.ToBool(); got != want {
+		return fmt.Errorf("Result.Bool() = %v, boolean() of the value is %v", got, want)
+	}
+	return nil
+}
+
 // passesCallerOrder: the expression's value is a node-set handed in by the
 // caller (a variable, possibly parenthesised); "a variable evaluates to
 // exactly the bound value" (C11), so its order is the caller's, not the
@@ -293,6 +345,12 @@ func passesCallerOrder(x *xast.Expr) bool {
 	}
 	return false
 }
+
+// observations of the most recent reference evaluation (single-threaded
+// test processes), for the properties' non-triviality rules
+var lastObs xref.Obs
+var lastRef xref.Value
+var lastRefErr error
 
 type outcome int
 
@@ -329,11 +387,16 @@ func evalPrepared(c *evalCase, p *prepared) (outcome, string, error) {
 		env.RoundHalfAwayNegative = true
 	}
 	ref, refErr := env.Eval(c.Expr, xref.Ctx{Node: ctxNode, Pos: 1, Size: 1})
+	lastObs, lastRef, lastRefErr = env.Obs, ref, refErr
 	if refErr == xref.ErrOutOfScope {
 		return discarded, "out-of-scope", nil
 	}
 	if env.Unpinned != "" {
 		return discarded, env.Unpinned, nil
+	}
+	if excluded("C08-slash-star-ambiguity") && slashStarAmbiguous(c.Text) {
+		st.KnownHit("C08-slash-star-ambiguity")
+		return discarded, "known-finding:C08-slash-star-ambiguity", nil
 	}
 	g, berr := buildExpr(c.Text)
 	if berr != nil {
@@ -356,6 +419,9 @@ func evalPrepared(c *evalCase, p *prepared) (outcome, string, error) {
 	}
 	if err := compareResult(impl, ref, p.loc, wantsAscending(c.Expr), passesCallerOrder(c.Expr)); err != nil {
 		return judged, "", fmt.Errorf("Exec(%q) from %s (%s): %v", c.Text, ctxNode.Ref(), ctxNode.Describe(), err)
+	}
+	if err := resultMethods(impl, ref); err != nil {
+		return judged, "", fmt.Errorf("Exec(%q) from %s = %s: %v", c.Text, ctxNode.Ref(), ref.Describe(), err)
 	}
 	return judged, "", nil
 }
